@@ -122,3 +122,22 @@ Definition deliver (expose : bool) (s : fstate) : delivered :=
   if Bool.eqb expose wrap_when_expose_is then wrap s else Copied s.
 
 Definition dots : list Z := [46; 46].
+
+(* ---- what the caller can ask the delivered failure: Failure.check(C) / trap(C) compare reflect.qual(C) with the strings
+   of f.parents.  A CopiedFailure carries the transmitted parents (setCopyableState); the wrapper made by
+   wrap_remote_failure is a fresh local Failure(RemoteException(..)) whose parents are RemoteException's own ancestry. *)
+Definition check_names (d : delivered) : list (list Z) :=
+  match d with Copied s => s_parents s | Wrapped _ => remote_exception_parents end.
+
+Definition delivered_check (d : delivered) (name : list Z) : bool := existsb (list_eqb name) (check_names d).
+
+(* the class the caller sees first: f.type of what the Deferred got (name on the wire / RemoteException) *)
+Definition delivered_type (d : delivered) : list Z :=
+  match d with Copied s => s_type s | Wrapped _ => remote_exception_name end.
+
+(* the whole path of one remote exception: callee's getStateToCopy -> (wire, FailureConstraint) -> caller's delivery *)
+Definition report (unsafe expose : bool) (e : exc) : res delivered :=
+  match get_state unsafe e with
+  | Exc t => Exc t
+  | Ok s => if failure_constraint_ok s then Ok (deliver expose s) else Exc "Violation"%string
+  end.
